@@ -10,6 +10,7 @@ event stream over a token-gated recording client (hook constructor, real 512-slo
   `stop`                            → Stop() + drain: the remaining records
 query stream over a hand-fed QueryResponse (timing free → not compared, monitor only):
   `qs <seq> <ack> <ms>` `qack <from>` `qresp <from> <payload>` `qclose` `qsleep <us>` `qend`
+  `esrace <filterhex> <kind> <namehex|->` → Stop() then HandleEvent on the real stream: `ok` | `panicked`
 end to end over the socket:
   `e2e <filterhex> <seq> <names>`   → the user-event records up to the end marker, `seq:u:namehex:idx+…`
   `e2eother`                        → number of non-user records (monitor only)
@@ -154,6 +155,15 @@ def step (s : St) (op : List String) (impl : String) : LineOut St :=
     let s1 := releaseN (s.es.buf.length + 2) s
     let (s2, m) := monitorStream s1 impl true
     { state := s2, model := some (recordsSince s s1), monitor := m }
+  | ["esrace", f, k, n] =>
+    -- Stop() and then HandleEvent: the order the agent's eventLoop can produce (recorded finding)
+    match stringOfHex? f, (if n == "-" then some "" else stringOfHex? n) with
+    | some fl, some nm =>
+      let r := handleEventOn (parseFilters fl) true { kind := k, name := nm }
+      { state := s, model := some (if r == .panic then "panicked" else "ok"),
+        monitor := if impl == "panicked" then
+            some ("event-after-stop-panic", "HandleEvent after Stop(): send on closed channel (this panic kills the agent process)") else none }
+    | _, _ => { state := s, model := some "bad-op" }
   | ["qs", q, _, _] =>
     match q.toNat? with
     | some sq => { state := { s with qseq := sq, qacks := [], qresps := [] }, model := some "ok" }
